@@ -232,9 +232,9 @@ pub fn main(args: Args) {
          distinct = distinct case indices simulated",
     ));
     run.assume("toggle sets are compared against the all-passes-on baseline of the same engine; agreement of all arms on a wrong value is invisible here (C01/C02/C18)");
-    let n = args.budget("cases", 60, 1500);
+    let n = args.budget("cases", 60, 300);
     let cycles = args.budget("cycles", 30, 120) as usize;
-    let random_subsets = args.budget("random_subsets", 2, 64);
+    let random_subsets = args.budget("random_subsets", 2, 24);
     let cc_every = args.budget("cc_every", 6, 6);
 
     let mut arms: Vec<Arm> = vec![Arm { name: "baseline".into(), env: vec![], diag: false }];
